@@ -546,7 +546,8 @@ def encode(t, desc, imposed, codec=None, cache=None):
         for fi, fiber in enumerate(rank):
             fiber.setName("_".join(["T", names[ri], str(fi)]))
             fiber.cache = cache
-            mine.add(fiber.name)
+            if ri:
+                mine.add(fiber.name)    # (the root holder is called T_root_0 in every encoding)
     cache.same_names = bool(mine & cache.names)
     cache.names |= mine
     return output, output_tensor
